@@ -80,6 +80,9 @@ def _generate_operator(ns, node):
         r = f"{r1} {operator} {r2}"
         # The result of a comparison is unsigned.
         s = (s1 or s2) and operator not in ["<", "<=", "==", "!=", ">", ">="]
+        # A shift has the sign of its left operand.
+        if operator in ["<<<", ">>>"]:
+            s = s1
 
     # Ternary Operator.
     if arity == OperatorType.TERNARY:
